@@ -27,6 +27,13 @@ def VStore.at (s : VStore) (h : Nat) : Option KV := (s.versions.find? (·.1 == h
 /-- `ForCheck(h)`: a copy-on-write view over the version `h` -/
 def VStore.forCheck (s : VStore) (h : Nat) : Option Overlay := (s.at h).map Overlay.init
 
+/-- `StateDB.Reset()` (IAVL `Rollback`): the working tree goes back to the last saved version -/
+def VStore.reset (s : VStore) : VStore :=
+  { s with working := match s.versions with | [] => [] | (_, m) :: _ => m }
+
+/-- the range iteration of the canonical working tree (`IterateOverAccounts` …): its whole content, in key order -/
+def VStore.iter (s : VStore) : KV := s.working
+
 /-- a canonical history: per block a list of writes, then a commit -/
 def VStore.applyBlocks (s : VStore) : List (List BOp) → VStore
   | [] => s
